@@ -300,6 +300,9 @@ func (r *simReader) Read(p []byte) (int, error) {
 	n := len(p)
 	if r.chunked {
 		n = 1 + r.rng.Intn(97)
+		if r.eofData && len(r.data)-r.pos <= 400 {
+			n = len(r.data) - r.pos // the last read, the one that also says io.EOF, carries real content
+		}
 		if n > len(p) {
 			n = len(p)
 		}
